@@ -2,4 +2,6 @@ import GodiModel.Kahn
 import GodiModel.Dfs
 import GodiModel.Graph
 import GodiModel.Conc
+import GodiModel.LockIR
+import GodiModel.Gen.LockFacts
 import GodiModel.Spec.Digraph
